@@ -196,9 +196,15 @@ def apply_op(t, op, rec=None):
         if style == "numpy-values":
             import numpy as np
             m = {a: np.str_(b) for a, b in m.items()}
+        strict, inplace = op["strict"], op["inplace"]
+        if style == "int-flags":
+            strict, inplace = int(strict), int(inplace)         # 0 / 1
+        elif style == "numpy-flags":
+            import numpy as np
+            strict, inplace = np.bool_(strict), np.bool_(inplace)
         given = dict(m)
         try:
-            return t.update_ids(m, axis=op["axis"], strict=op["strict"], inplace=op["inplace"])
+            return t.update_ids(m, axis=op["axis"], strict=strict, inplace=inplace)
         finally:
             if rec is not None and (m != given or list(m) != list(given)):
                 rec["argument_mutated"] = "id_map"
@@ -211,6 +217,16 @@ def apply_op(t, op, rec=None):
         return t
     if k == "del_metadata":
         t.del_metadata(keys=list(op["keys"]), axis=op["axis"])
+        return t
+    if k == "edit_inner":
+        # the caller edits, in place, a mutable object inside the metadata of one ID (at any nesting depth)
+        v = t.metadata(op["id"], axis=op["axis"])[op["key"]]
+        for step in op["path"]:
+            v = v[step]
+        if isinstance(v, dict):
+            v["EDITED"] = 1
+        else:
+            v.append("EDITED")
         return t
     raise ValueError(k)
 
@@ -711,7 +727,7 @@ def op_stream(ctx, n, max_dim):
             base["preread"] = rng.randrange(10 ** 6)
         if rng.random() < 0.2:
             base["profile"] = rng.choice(["raise", "raise", "warn", "call", "warnings-are-errors"])
-        style = rng.choice([None, None, "defaults", "positional", "numpy-values"])
+        style = rng.choice([None, None, "defaults", "positional", "numpy-values", "int-flags", "numpy-flags"])
         t0 = safe_receiver(ctx, dict(base, op={"op": "copy"}), ("random",))
         if t0 is None:
             continue
@@ -1062,6 +1078,107 @@ def odd_unicode_ids(rng, spec):
                     e["note"] = rng.choice(core.NASTY_TEXTS + [a for pr in core.NORMALISATION_PAIRS for a in pr])
 
 
+def nested_md(rng, ids):
+    """metadata nested two and more levels (KEGG_Pathways style lists of lists, dicts of dicts / lists, a tuple holding
+    lists), next to None and numpy scalars as they come back from files, categories named like fields or IDs"""
+    import numpy as np
+    out = []
+    for k, i in enumerate(ids):
+        out.append({"KEGG_Pathways": [["Metabolism", "Carbohydrate %d" % k], ["Genetic", "Translation", i]],
+                    "info": {"depth": {"reads": [k, k + 1], "ok": True}, "tags": ["t%d" % k]},
+                    "pair": (["left", i], ["right"]),
+                    "taxonomy": ["k__A", "p__%d" % k],
+                    "id": np.int64(k), "shape": np.float64(k + 0.5), "flag": np.bool_(k % 2 == 0), "none": None,
+                    str(ids[0]): "named like an ID"})
+    return out
+
+
+def inner_paths(v, path=()):
+    """paths (below a metadata value) to every mutable container that can be edited in place"""
+    found = []
+    if isinstance(v, list):
+        found.append(list(path))
+        for j, x in enumerate(v):
+            found += inner_paths(x, path + (j,))
+    elif isinstance(v, tuple):
+        for j, x in enumerate(v):
+            found += inner_paths(x, path + (j,))
+    elif isinstance(v, dict):
+        found.append(list(path))
+        for j, x in v.items():
+            found += inner_paths(x, path + (j,))
+    return found
+
+
+DEEP_COPYING = ["copy", "transpose", "update_ids"]     # operations documented to return entirely new tables
+
+
+def nested_metadata_stream(ctx, n):
+    """metadata nested several levels; a table is derived by an operation that returns an entirely new table
+    (copy, transpose — also twice —, update_ids(inplace=False)), chains of them; then a mutable object INSIDE the
+    metadata of one ID is edited in place (any depth) through the source or through the derived table; every other
+    live table must keep what it had.  (sort_order/sort/align_to hand the metadata VALUES of the source on to the
+    result — the code promises no copy there — so edits after those are not judged here.)"""
+    rng = ctx.rng
+    for it in range(n):
+        no, ns = rng.randint(2, 3), rng.randint(2, 3)
+        obs, samp = core.gen_ids(rng, no, "O", "ascii"), core.gen_ids(rng, ns, "S", "ascii")
+        spec = {"obs": obs, "samp": samp, "rows": core.gen_grid(rng, no, ns, 0.7, ("count",)),
+                "omd": nested_md(rng, obs) if it % 3 != 1 else None,
+                "smd": nested_md(rng, samp) if it % 3 != 2 else None, "type": None}
+        steps = []
+        for _ in range(rng.choice([1, 1, 2, 3])):
+            dk = rng.choice(DEEP_COPYING)
+            if dk == "update_ids":
+                ax = rng.choice(AX)
+                # names unlikely to exist already, whatever happened before
+                by = {"op": dk, "id_map": [], "axis": ax, "strict": False, "inplace": False, "_fresh": True}
+            else:
+                by = {"op": dk}
+            steps.append(by)
+        # lay the steps out as history: some derivations keep the receiver (bystander = derived table),
+        # some move on to the derived table (bystander = source)
+        hist = []
+        cont = gen_containers(rng) if rng.random() < 0.3 else None
+        t = build_table(spec, "dense", cont)
+        for by in steps:
+            by = dict(by)
+            if by.pop("_fresh", False):
+                cur = [str(i) for i in t.ids(axis=by["axis"])]
+                by["id_map"] = [[cur[0], cur[0] + "_renamed_%d" % len(hist)]]
+            if rng.random() < 0.5:
+                hist.append({"op": "derive", "by": by})
+                apply_op(t, by)
+            else:
+                hist.append(by)
+                t = apply_op(t, by)
+        # one or two in-place edits of inner objects of the receiver's metadata
+        for _ in range(rng.choice([1, 2])):
+            cands = []
+            for ax in AX:
+                md = t.metadata(axis=ax)
+                if md is None:
+                    continue
+                for i, e in zip(t.ids(axis=ax), md):
+                    for key, v in e.items():
+                        for pth in inner_paths(v):
+                            cands.append({"op": "edit_inner", "axis": ax, "id": str(i), "key": key, "path": pth})
+            if not cands:
+                break
+            deep = [c for c in cands if len(c["path"]) >= 1]
+            e = rng.choice(deep if deep and rng.random() < 0.7 else cands)
+            hist.append(e)
+            apply_op(t, e)
+            ctx.count("inner-edit-depth=%d" % (1 + len(e["path"])))
+        evaluate(ctx, mk_case(spec, "dense", hist, {"op": rng.choice(["copy", "transpose", "copy"])}, None, cont),
+                 ("nested-metadata",))
+        # and the operations themselves on nested metadata
+        ax = rng.choice(AX)
+        ids = spec["obs"] if ax == "observation" else spec["samp"]
+        evaluate(ctx, mk_case(spec, "csc", [], {"op": "sort_order", "order": random_perm(rng, ids), "axis": ax}, None, cont),
+                 ("nested-metadata",))
+
+
 def container_stream(ctx, specs):
     """every operation on tables whose IDs were handed over in every accepted kind of container"""
     rng = ctx.rng
@@ -1165,6 +1282,7 @@ def run(ctx):
     metadata_aliasing_stream(ctx, [specs[0]] if quick else [specs[0], specs[2]])
     degenerate_shape_stream(ctx)
     unicode_stream(ctx, 1 if quick else 3)
+    nested_metadata_stream(ctx, 45 if quick else 250)
     rng = ctx.rng
     if quick:
         wide_stream(ctx, [rng.randint(129, 200), rng.randint(257, 300), rng.randint(513, 560)])
@@ -1186,8 +1304,8 @@ def run(ctx):
     exhaustive_perms(ctx, specs[:3] if quick else specs, routes if not quick else routes[:2])
     ctx.exhaustive = False
     if quick:
-        op_stream(ctx, 290, 6)
-        op_stream(ctx, 85, 9)
+        op_stream(ctx, 270, 6)
+        op_stream(ctx, 75, 9)
     else:
         op_stream(ctx, 16000 // nw, 6)
         op_stream(ctx, 8000 // nw, 12)
